@@ -36,7 +36,8 @@ def replay(build_dir, script, cases, nproc=None, timeout=3000, extra_env=None, c
     def one(arg):
         off, ch = arg
         r = subprocess.run([PY, "-W", "ignore", os.path.join(VERIF, "harness", script)], input=json.dumps(ch),
-                           capture_output=True, text=True, env=pyenv(build_dir, extra_env), timeout=timeout)
+                           capture_output=True, text=True, env=pyenv(build_dir, extra_env), timeout=timeout,
+                           preexec_fn=common.limit_resources())
         if r.returncode != 0:
             raise MachineryError("%s failed rc=%d:\n%s" % (script, r.returncode, r.stderr[-3000:]))
         out = json.loads(r.stdout)
